@@ -113,7 +113,14 @@ class IntroducerClient(service.Service, Referenceable):
                 continue
             # everything coming from yamlutil.safe_load is unicode
             key_s = server_params['key_s'].encode("ascii")
-            self._deliver_announcements(key_s, server_params['ann'])
+            ann = server_params['ann']
+            # the cached announcement is the one we hold for this server from
+            # now on: it is subject to the seqnum rule, late subscribers are
+            # told about it, and the next save of the cache keeps it
+            index = (str(ann["service-name"]), key_s)
+            if index not in self._inbound_announcements:
+                self._inbound_announcements[index] = (ann, key_s, time.time())
+            self._deliver_announcements(key_s, ann)
 
     def _save_announcements(self):
         announcements = []
